@@ -36,6 +36,7 @@ TPMNew ==
 
 TNW == Is("NW") /\ (IF Wild THEN Upd(Ev.c + 1, Cur) ELSE Upd(Ev.c + 1, NWStep(Cur, Ev.type, Ev.m, Ev.err, Ev.tx)))
 TWR == Is("WR") /\ (IF Wild THEN Upd(Ev.c + 1, Cur) ELSE Upd(Ev.c + 1, WRStep(Cur, Ev.n, Ev.ret, Ev.err, Ev.tx)))
+TWRS == Is("WRS") /\ (IF Wild THEN Upd(Ev.c + 1, Cur) ELSE Upd(Ev.c + 1, WRSStep(Cur, Ev.n, Ev.ret, Ev.err, Ev.tx)))
 TCL == Is("CL") /\ (IF Wild THEN Upd(Ev.c + 1, Cur) ELSE Upd(Ev.c + 1, CLStep(Cur, Ev.err, Ev.tx)))
 TWM == (Is("WM") \/ Is("WJ")) /\ (IF Wild THEN Upd(Ev.c + 1, Cur) ELSE Upd(Ev.c + 1, WMStep(Cur, Ev.type, Ev.n, Ev.m, Ev.err, Ev.tx)))
 TWJB == Is("WJB") /\ (IF Wild THEN Upd(Ev.c + 1, Cur) ELSE Upd(Ev.c + 1, WJBStep(Cur, Ev.m, Ev.err, Ev.tx)))
@@ -53,7 +54,7 @@ TEnd == /\ Is("END") /\ (cs[Ev.c + 1].err = "fatal" \/ cs[Ev.c + 1].wild)      \
         /\ UNCHANGED << cs, pms >> /\ Adv
 
 TInit == l = 1 /\ cs = << >> /\ pms = << >>
-TNext == TReset \/ TEnd \/ TPMNew \/ TNW \/ TWR \/ TCL \/ TWM \/ TWJB \/ TWC \/ TWP \/ TSD \/ TXC \/ TEC \/ TSL
+TNext == TReset \/ TEnd \/ TPMNew \/ TNW \/ TWR \/ TWRS \/ TCL \/ TWM \/ TWJB \/ TWC \/ TWP \/ TSD \/ TXC \/ TEC \/ TSL
 TSpec == TInit /\ [][TNext]_tvars
 
 Accepted ==
